@@ -22,9 +22,21 @@ import (
 //verif:stub time.Now verifStub_timeNow
 //verif:stub (github.com/bluenviron/mediacommon/v2/pkg/formats/fmp4.PartSample).GetH264 verifStub_GetH264
 
-func verifStub_timeSince(t time.Time) time.Duration { return 1 << 62 } // playback never has to be paced
+// by default playback never has to be paced (a large elapsed time); the back-pressure harness sets
+// verifElapsedZero so that the track processor goes to sleep on a timer that never fires
+var verifElapsedZero bool
+
+func verifStub_timeSince(t time.Time) time.Duration {
+	if verifElapsedZero {
+		return 0
+	}
+	return 1 << 62
+}
 func verifStub_timeNow() time.Time                  { return time.Date(2024, 1, 1, 0, 0, 0, 0, time.UTC) }
 func verifStub_timeAfter(d time.Duration) <-chan time.Time {
+	if verifElapsedZero {
+		return make(chan time.Time) // never fires within the run
+	}
 	ch := make(chan time.Time, 1)
 	ch <- time.Time{}
 	return ch
